@@ -26,7 +26,7 @@ ASSUMPTIONS = ["a forged datagram that carries the right token AND the right sou
                "indication was delivered to the endpoint"]
 EXPECTED_PROBES = ["forged_random_token", "forged_wrong_ip", "forged_wrong_port", "late_copy", "rst_for_unmatched_con",
                    "matched", "failed_by_icmp", "failed_by_giveup", "failed_by_rst", "resolution_failure", "pending_at_quiescence",
-                   "dup_response_delivered", "multicast_request_outstanding", "response_before_exchange_end", "peer_request_under_own_token"]
+                   "dup_response_delivered", "multicast_request_outstanding", "response_before_exchange_end", "peer_request_under_own_token", "partition", "liveness_probe_after_heal"]
 
 FORGED = b"FORGED"
 
@@ -55,6 +55,17 @@ def gen(r, tier):
     if r.chance(0.2):
         ops.append({"op": "icmp", "t": round(r.uniform(0, t + 2), 4), "srv": r.randrange(0, 1 + nscripted),
                     "errno": r.choice([111, 113])})
+    parts = []
+    if r.chance(0.2):
+        # the path to one of the servers is cut for a while (every datagram in both directions is lost), then heals
+        for _ in range(r.randint(1, 2)):
+            parts.append({"t0": round(r.uniform(0, t + 1), 3), "dur": r.choice([0.3, 2.0, 10.0, 40.0, 100.0]),
+                          "srv": r.randrange(0, 1 + nscripted)})
+        # bounded liveness: once every fault has stopped, a fresh request to every server is answered
+        t_quiet = max(p_["t0"] + p_["dur"] for p_ in parts) + t + 300.0
+        for sv in range(0, 1 + nscripted):
+            ops.append({"op": "req", "t": round(t_quiet + sv, 3), "srv": sv, "con": True, "behave": "piggy", "d": 0.0,
+                        "probe": True})
     both = r.chance(0.3)
     if both and nscripted:
         # the context is client AND server towards the scripted servers: they send it requests of their own (slow
@@ -64,7 +75,7 @@ def gen(r, tier):
             ops.append({"op": "peer_req", "t": round(r.uniform(0, t + 1), 4), "srv": r.randrange(1, 1 + nscripted),
                         "token": r.choice(["own", "own", "other"]), "d": r.choice([0.3, 1.0, 4.0])})
     ops.sort(key=lambda o: (o["t"], o["op"] != "req"))
-    return {"both_roles": both, "nscripted": nscripted, "ops": ops, "net": faults.swarm(r, kinds=("drop", "dup", "delay", "reorder")),
+    return {"partitions": parts, "both_roles": both, "nscripted": nscripted, "ops": ops, "net": faults.swarm(r, kinds=("drop", "dup", "delay", "reorder")),
             "senderr": round(r.uniform(0.01, 0.08), 3) if r.chance(0.08) else 0, "stall": r.chance(0.1),
             # one more concurrent request: to a multicast group nobody answers from (outstanding for the whole run)
             "mcast": r.chance(0.15), "same_host": r.chance(0.3), "v4": r.chance(0.15)}
@@ -160,9 +171,16 @@ def execute(sim, scn):
 
     loop = sim.loop
     sim.net.fate_gen = faults.fate_gen(scn.get("net", {}))
+    probes_at = [o["t"] for o in scn["ops"] if o.get("probe")]
+    if probes_at:
+        # "once faults stop": no random network fault from shortly before the liveness probes on
+        t_quiet = min(probes_at) - 100.0
+        inner = sim.net.fate_gen
+        if inner is not None:
+            sim.net.fate_gen = lambda r, entry: (inner(r, entry) if loop.now < t_quiet else ["deliver", 0.005])
     if scn.get("senderr"):
         p = scn["senderr"]
-        sim.gens["senderr"] = lambda r: (r.choice([101, 1]) if r.chance(p) else 0)
+        sim.gens["senderr"] = lambda r: (r.choice([101, 1]) if (r.chance(p) and not (probes_at and loop.now >= min(probes_at) - 100.0)) else 0)
     if scn.get("stall"):
         loop.stall_hook = lambda now: sim.decider.get_indexed(
             "stall", 0, lambda r: (round(r.uniform(0.01, 5), 3) if r.chance(0.02) else 0))
@@ -206,6 +224,10 @@ def execute(sim, scn):
     else:
         scripted = [ScriptServer(sim, common.PEER_IPS[i], 5683, plans[i + 1]) for i in range(scn["nscripted"])]
     addr_of = [(common.SERVER_IP, 5683)] + [s.addr for s in scripted]
+    for p_ in scn.get("partitions") or []:
+        if p_["srv"] < len(addr_of):
+            sim.net.partitions.append((p_["t0"], p_["t0"] + p_["dur"], common.CLIENT_IP, addr_of[p_["srv"]][0]))
+            sim.probe("partition")
     sim.net.names["good.example"] = common.PEER_IPS[0]
     sim.net.names["bad.example"] = None
     adversary = ScriptedEndpoint(sim, common.ADV_IP, 5683)
@@ -438,11 +460,10 @@ def execute(sim, scn):
                 m = rc.decode(bytes.fromhex(ev[6]))
             except rc.FormatError:
                 continue
-            dst = None
-            for a in list(addr_of) + [(common.ADV_IP, 5683)] + [(x[0], x[1] + 1) for x in addr_of]:
-                if fmt(a) == ev[4]:
-                    dst = a
-            if dst is None:
+            try:
+                host, _, port = ev[4].rpartition(":")
+                dst = (host.strip("[]"), int(port))
+            except ValueError:
                 continue
             if m["code"] == 0 and m["type"] == rc.RST:
                 got_rst[(dst, m["mid"])] = got_rst.get((dst, m["mid"]), 0) + 1
@@ -469,6 +490,12 @@ def execute(sim, scn):
             continue
         op = q["op"]
         ident = {"tag": tag, "srv": op["srv"], "con": op["con"], "behave": op["behave"]}
+        if op.get("probe"):
+            # bounded liveness: all faults have stopped long ago
+            sim.probe("liveness_probe_after_heal")
+            if not (rec["done"] and rec["outcome"] == "response"):
+                sim.violation("C02/no-progress-after-faults-stopped", dict(ident, outcome=rec.get("outcome"),
+                                                                          exc=repr(rec.get("exception"))[:120]))
         if op.get("host") == "bad.example":
             sim.probe("resolution_failure")
             if not (rec["done"] and rec["outcome"] == "error" and isinstance(rec["exception"], error.ResolutionError)):
